@@ -51,6 +51,7 @@ from engine.core import digest, MachineryError
 
 NONE = [-1]
 UNKNOWN = [-2]
+PERR = [-3]             # the accessor raised the multipart parse error
 BASE_LIM = {'count': 64, 'hdr': 8192, 'buf': 4096}
 KNOWN_TYPES = ('text/plain', 'text/plain; charset=utf-8', 'application/json', 'application/octet-stream')
 WHY = (('unexpected form structure', 'structure'), ('incomplete body part headers', 'headers'),
@@ -458,7 +459,7 @@ def encodable(form, env):
 
 BCHARS = "abcdefghijklmnopqrstuvwxyzABCDEFGHIJKLMNOPQRSTUVWXYZ0123456789'()+_-./:=?"   # RFC 2046 bchars minus the comma (see run())
 NAMES = ['a', 'field', 'f-1', 'a b', 'x;y=z', 'é', 'имя', '名', 'a;filename=q', "it's"]
-FILES = ['f.txt', 'a b.png', 'x;y.bin', 'é.txt', '€ x.txt', 'naïve file.tar.gz', '名.pdf', 'a%20b', "o'k.txt"]
+FILES = ['f.txt', '😀.png', 'a b.png', 'x;y.bin', 'é.txt', '€ x.txt', 'naïve file.tar.gz', '名.pdf', 'a%20b', "o'k.txt"]
 JSONS = [1, 'x', '--', {'a': 1}, [1, 2, '--b'], {'k': ['é', None, True]}, '\r\n--', {'--': '--'}]
 
 
@@ -574,7 +575,7 @@ def random_script(rng, form, b, maxops=3):
 
 def random_edit(rng, body, b):
     kind = rng.choice(('del', 'ins', 'sub'))
-    vals = b'X-\r\n: ;"=b\xe9\xff\x80\xc3' + b[:1]
+    vals = b'X-\r\n: ;"=b\xe9\xff\x80\xc32A%\'' + b[:1]
     n = len(body)
     if n == 0:
         kind = 'ins'
@@ -586,10 +587,10 @@ def random_edit(rng, body, b):
     elif t < 0.62:
         hot = [i for i, x in enumerate(body) if x >= 128]
     elif t < 0.80:
-        for key in (b'name="', b"filename*=UTF-8''", b'filename="', b'ontent-Type: ', b'ontent-type: '):
+        for key in (b'name="', b"filename*=", b'filename="', b'ontent-Type: ', b'ontent-type: '):
             j = body.find(key)
             while j >= 0:
-                hot += list(range(j + len(key), min(n, j + len(key) + 12)))
+                hot += list(range(j + len(key), min(n, j + len(key) + (40 if key[-2:] == b'*=' else 12))))
                 j = body.find(key, j + 1)
     i = rng.choice(hot) if hot else rng.randrange(n + (1 if kind == 'ins' else 0))
     v = rng.choice(vals)
@@ -688,7 +689,10 @@ def compare(want, got, edited):
                 return 'P:parts', i, 'spec %s, code %s' % (w['out'], g['out'])
             if w['out'] == 'part':
                 for key, cl in (('name', 'P:name'), ('fname', 'P:filename'), ('ctype', 'P:ctype')):
-                    if w[key] != UNKNOWN and w[key] != g[key]:
+                    if w[key][:1] == [-4]:            # exactly this value, or the parse error
+                        if g[key] != w[key][1:] and g[key] != PERR:
+                            return cl, i, 'spec %r (or the parse error), code %r' % (w[key][1:], g[key])
+                    elif w[key] != UNKNOWN and w[key] != g[key]:
                         return cl, i, 'spec %r, code %r' % (w[key], g[key])
             if w['out'] == 'error' and w['why'] != g['why']:
                 return 'D:why', i, 'spec %s, code %s' % (w['why'], g['why'])
@@ -801,8 +805,8 @@ def run(ctx):
 
     # ---- leg A: behaviours exported by TLC, replayed ---------------------------------------------
     beh = {}
-    for cfg in ctx.pick(('MC_MultipartExp.cfg', 'MC_MultipartExpCQ.cfg'),
-                        ('MC_MultipartExp.cfg', 'MC_MultipartExp2.cfg', 'MC_MultipartExpC.cfg')):
+    for cfg in ctx.pick(('MC_MultipartExp.cfg', 'MC_MultipartExpCQ.cfg', 'MC_MultipartExpX.cfg'),
+                        ('MC_MultipartExp.cfg', 'MC_MultipartExp2.cfg', 'MC_MultipartExpC.cfg', 'MC_MultipartExpX.cfg')):
         rx = ctx.tlc('MC_Multipart', cfg, workers=8, timeout=1200)
         for b in rx.json:
             beh[digest(b)] = b
@@ -822,7 +826,7 @@ def run(ctx):
         raise MachineryError('vacuous export: no behaviour contains %s' % sorted(missing))
     ctx.extra['spec_behaviours'] = len(beh)
     ctx.progress('leg A: %d distinct behaviours exported by TLC' % len(beh))
-    per = ctx.pick(5, 6)
+    per = ctx.pick(4, 6)
     replays = 0
     blist = list(beh.values())
     rng.shuffle(blist)
@@ -925,6 +929,21 @@ def signature_of(clause, ev, k):
     return {'clause': clause, 'op': e.get('op'), 'after': prev.get('op'), 'after_out': prev.get('out')}
 
 
+def charset_table(body):
+    """Charset labels of RFC 5987 values occurring in the body, classified by the trusted decoder
+    (CPython's codec registry): utf8 / bogus (no such charset) / other."""
+    import codecs
+    import re
+    out = []
+    for lab in sorted(set(re.findall(rb"filename\*=([A-Za-z0-9_-]+)'", body))):
+        try:
+            c = 'utf8' if codecs.lookup(lab.decode('ascii')).name == 'utf-8' else 'other'
+        except LookupError:
+            c = 'bogus'
+        out.append({'l': list(lab), 'c': c})
+    return out
+
+
 def run_case(ctx, seen, form, env, lim, body, edit, script, vs, origin):
     """Executes one case on every (stack, variant).  The handler-level and the full-stack runs of a correct
     implementation log the same calls; the full-stack ones add the HTTP status, which is appended (once per
@@ -940,7 +959,8 @@ def run_case(ctx, seen, form, env, lim, body, edit, script, vs, origin):
         k = digest([list(body), lim, core])
         ctx.case(None, nontrivial=nt, key=digest([list(body), lim, script.to_json()]))
         if k not in seen:
-            trace = {'form': form, 'env': env, 'lim': lim, 'body': list(body), 'valid': edit is None, 'ev': list(core)}
+            trace = {'form': form, 'env': env, 'lim': lim, 'body': list(body), 'valid': edit is None,
+                     'charsets': charset_table(body), 'ev': list(core)}
             case = {'origin': origin, 'stacks': [], 'variant': var, 'form': form, 'env': env, 'lim': lim,
                     'body': list(body), 'edit': edit, 'script': script.to_json()}
             seen[k] = (trace, case, [])
@@ -967,7 +987,7 @@ def replay(ctx, case):
         for e in ev:
             print('  ', {k: v for k, v in e.items() if v not in (NONE, [], '', 0, False, -1)})
         trace = {'form': c['form'], 'env': c['env'], 'lim': c['lim'], 'body': c['body'],
-                 'valid': not (c.get('edited') or c.get('edit')), 'ev': ev}
+                 'valid': not (c.get('edited') or c.get('edit')), 'charsets': charset_table(body), 'ev': ev}
         v = ctx.judge('MultipartTrace', [trace], workers=1)[0]
         print('verdict:', v)
         if v != 'ok' and not v.startswith('D:'):
